@@ -1436,6 +1436,19 @@ def normal(obj, params, **kwargs):
             return ops.normal_surface_single_list(obj, params, normalize)
 
 
+def _distinct(geom):
+    """ Iterates over the geometries of the input once each (a container may hold the same object more than once).
+
+    :param geom: input geometry
+    :type geom: abstract.SplineGeometry or multi.AbstractContainer
+    """
+    seen = []
+    for g in geom:
+        if not any(g is s for s in seen):
+            seen.append(g)
+    return seen
+
+
 def _reset_container(geom):
     """ Resets the caches of a geometry container after its elements are updated.
 
@@ -1476,7 +1489,7 @@ def translate(obj, vec, **kwargs):
         geom = obj
 
     # Translate control points
-    for g in geom:
+    for g in _distinct(geom):
         new_ctrlpts = []
         for pt in g.ctrlpts:
             temp = [v + vec[i] for i, v in enumerate(pt)]
@@ -1578,7 +1591,7 @@ def rotate(obj, angle, **kwargs):
     origin = geom[0].evaluate_single(params)
 
     # Start rotation
-    for g in geom:
+    for g in _distinct(geom):
         rotfunc[axis](g, origin, angle)
     _reset_container(geom)
 
@@ -1611,7 +1624,7 @@ def scale(obj, multiplier, **kwargs):
         geom = obj
 
     # Scale control points
-    for g in geom:
+    for g in _distinct(geom):
         new_ctrlpts = [[] for _ in range(g.ctrlpts_size)]
         for idx, pts in enumerate(g.ctrlpts):
             new_ctrlpts[idx] = [p * float(multiplier) for p in pts]
